@@ -27,7 +27,13 @@ def _iterate_calc_tree_and_ground(
     if calc_node.is_leaf:
         if isinstance(calc_node.value, PDDLFunction):
             lifted_function: PDDLFunction = calc_node.value
-            lifted_function_params = [param for param in lifted_function.signature]
+            # the positional arguments when known: a constant may fill several places of the term, which the
+            # name-keyed signature holds only once.
+            lifted_function_params = (
+                lifted_function.arguments
+                if lifted_function.arguments is not None
+                else [param for param in lifted_function.signature]
+            )
             grounded_signature = {}
             grounded_arguments = []
             for parameter_name in lifted_function_params:
